@@ -834,6 +834,9 @@ var noopCancel = &hostFunc{name: "context.cancel", f: func(in *interp, args []va
 func ctxWithCancel(fr *frame, a []value) value { return tuple{a[0], noopCancel} }
 
 func (in *interp) randBelow(name string, n value, k types.BasicKind) value {
+	if _, sym := n.(*Sym); !sym && in.concInt(n) == 1 {
+		return fromBits(k, 0) // the only value below 1
+	}
 	v := in.fresh(name, k)
 	in.assume(in.binop(token.GEQ, nil, v, fromBits(k, 0)))
 	in.assume(in.binop(token.LSS, nil, v, n))
